@@ -163,9 +163,11 @@ function genSem(rng, params) {
       const k = rng.chance(1, 2) ? A("number") : lit("n", "0");
       expr = [A("idx"), a, k]; text = `(${tsOf(a)})[${tsOf(k)}]`; types = [A("string"), A("boolean"), A("number"), A("null")];
     } else {
-      const a = rng.chance(1, 2) ? [A("array"), rng.chance(1, 8) ? A("unknown") : genSubTy(rng, 1, sc)] : [A("tuple"), Array.from({ length: 1 + rng.below(3) }, () => genSubTy(rng, 1, sc)), rng.chance(1, 3) ? (rng.chance(1, 3) ? A(rng.pick(["unknown", "any"])) : genLeaf(rng)) : A("none")];
-      const k = rng.chance(1, 2) ? A("number") : lit("n", String(rng.below(3)));
-      expr = [A("idx"), a, k]; text = `(${tsOf(a)})[${tsOf(k)}]`; types = head(a) === "array" ? [a[1], a] : [...a[1], a];
+      const a = rng.chance(1, 2) ? [A("array"), rng.chance(1, 8) ? A("unknown") : genSubTy(rng, 1, sc)] : [A("tuple"), Array.from({ length: 1 + rng.below(3) }, () => genSubTy(rng, 1, sc)), rng.chance(1, 2) ? (rng.chance(1, 3) ? A(rng.pick(["unknown", "any"])) : genLeaf(rng)) : A("none")];
+      // (a literal index, a union of literal indices, or `number`; for a tuple the last fixed position is the interesting one)
+      const kmax = head(a) === "tuple" ? a[1].length : 2;
+      const k = rng.chance(1, 3) ? A("number") : rng.chance(1, 4) ? [A("union"), lit("n", "0"), lit("n", String(rng.below(kmax + 1)))] : lit("n", String(rng.chance(1, 2) ? Math.max(0, kmax - 1) : rng.below(kmax + 1)));
+      expr = [A("idx"), a, k]; text = `(${tsOf(a)})[${tsOf(k)}]`; types = head(a) === "array" ? [a[1], a] : [...a[1], ...(isAtom(a[2], "none") ? [] : [a[2]]), a];
     }
   }
   const vals = semValues(rng, p, types, Number(params[0] || 10));
